@@ -2515,6 +2515,17 @@ hsStateDetermined:
                 seen and assign msn.  Can only deal with single fragmented
                 message at a time.
  */
+                if (fragLen == 0)
+                {
+                    /* A fragment without data contributes nothing to the
+                       message. It must not be remembered either: it would
+                       occupy the slot of its offset (the fragment that
+                       carries the data for that offset would be taken for
+                       a duplicate) and dtlsHsHashFragMsg cannot advance
+                       over it. */
+                    psTraceDtls("Ignoring zero-length handshake fragment\n");
+                    return MATRIXSSL_SUCCESS;
+                }
                 if (ssl->fragTotal == 0)
                 {
 /*
